@@ -200,6 +200,12 @@ var sparseSeqs = [][]cmd{
 	{{Verb: "CWD", Arg: "a"}, {Verb: "RMD", Arg: "/a"}, {Verb: "RMD", Arg: "/a/.."}},
 	{{Verb: "CWD", Arg: "a"}, {Verb: "RMD", Arg: "../a"}, {Verb: "RN", Arg: "/", Arg2: "/x"}},
 	{{Verb: "MKD", Arg: "a/c"}, {Verb: "CWD", Arg: "a/c"}, {Verb: "RMD", Arg: "/a/c"}, {Verb: "RMD", Arg: "/a"}, {Verb: "RMD", Arg: "//"}},
+	// uploads that are cut off (the data connection is reset after the first bytes) into a root that holds nothing
+	// else, directly and into a path below it
+	{{Verb: "RMD", Arg: "a"}, {Verb: "STOR!", Arg: "up.bin"}, {Verb: "PWD"}},
+	{{Verb: "RMD", Arg: "a"}, {Verb: "STOR!", Arg: "/x/y/up.bin"}, {Verb: "LIST", Arg: ""}},
+	{{Verb: "STOR!", Arg: "a/up.bin"}, {Verb: "RMD", Arg: "a"}, {Verb: "STOR!", Arg: "up2.bin"}},
+	{{Verb: "RMD", Arg: "a"}, {Verb: "APPE!", Arg: "up.bin"}},
 	{{Verb: "RN", Arg: "/", Arg2: "/a/x"}},
 	{{Verb: "RN", Arg: "/", Arg2: "../moved"}},
 	{{Verb: "RN", Arg: "a", Arg2: "/"}},
@@ -403,8 +409,9 @@ func childE2E(b core.Batch, p params, o *core.Obs) {
 				}
 			}
 		}
+		abort := false
 		data := func(line string, upload []byte) {
-			var dc net.Conn
+			var dc, raw net.Conn
 			if passive {
 				rep := f.cmd("PASV")
 				m := re227.FindStringSubmatch(rep)
@@ -423,7 +430,7 @@ func childE2E(b core.Batch, p params, o *core.Obs) {
 				// (always), also for a plain control connection: speak TLS on the data channel
 				tc := tls.Client(c, &tls.Config{InsecureSkipVerify: true})
 				tc.SetDeadline(time.Now().Add(3 * time.Second))
-				dc = tc
+				dc, raw = tc, c
 			} else {
 				l, err := net.Listen("tcp", "127.0.0.1:0")
 				if err != nil {
@@ -442,7 +449,7 @@ func childE2E(b core.Batch, p params, o *core.Obs) {
 					note("!accept " + err.Error())
 					return
 				}
-				dc = c
+				dc, raw = c, c
 			}
 			defer dc.Close()
 			f.cl.Send([]byte(line+"\r\n"), 2*time.Second)
@@ -451,7 +458,14 @@ func childE2E(b core.Batch, p params, o *core.Obs) {
 			if !strings.HasPrefix(rep, "1") {
 				return
 			}
-			if upload != nil {
+			if upload != nil && abort {
+				// the transfer is cut off: a few bytes, then the data connection is reset
+				dc.Write(upload[:len(upload)/2+1])
+				if tc, ok := raw.(*net.TCPConn); ok {
+					tc.SetLinger(0)
+				}
+				raw.Close()
+			} else if upload != nil {
 				dc.Write(upload)
 				if tc, ok := dc.(*tls.Conn); ok {
 					tc.CloseWrite()
@@ -486,6 +500,10 @@ func childE2E(b core.Batch, p params, o *core.Obs) {
 				}
 			case "STOR", "APPE":
 				data(c.Verb+" "+arg, []byte("upload-"+arg))
+			case "STOR!", "APPE!":
+				abort = true
+				data(strings.TrimSuffix(c.Verb, "!")+" "+arg, []byte(strings.Repeat("upload-"+arg+"|", 600)))
+				abort = false
 			case "RETR", "LIST", "NLST":
 				data(strings.TrimSpace(c.Verb+" "+arg), nil)
 			default:
